@@ -75,14 +75,14 @@ func (a *Adapter) beginRenew(act Act) error {
 		switch act.Kind {
 		case "renew":
 			p := proto4.RPCRenewContractParams{ContractID: oldID, Allowance: allowance, Collateral: collateral, ProofHeight: ex.ProofHeight + 10}
-			if act.Rf != "ok" {
+			if act.Rf == "bad" {
 				p.ProofHeight = ex.ProofHeight // not greater than the existing proof height
 			}
 			r, err := rhp4.RPCRenewContract(ctx, a.E.Net, a.E.CM, signer, cs, a.E.Prices, a.E.W.Address(), ex, p)
 			res = renewResult{r.Contract, err}
 		default:
 			p := proto4.RPCRefreshContractParams{ContractID: oldID, Allowance: allowance, Collateral: collateral}
-			if act.Rf != "ok" {
+			if act.Rf == "bad" {
 				p.Allowance = types.ZeroCurrency
 			}
 			var r rhp4.RPCRefreshContractResult
@@ -147,6 +147,9 @@ func (a *Adapter) renewProxy(rs *renewSession, ex types.V2FileContract, client, 
 		if act.Cf != "ok" {
 			req.ChallengeSignature = mutateChallenge(req.ChallengeSigHash)
 		}
+		if act.Rf == "poolbad" && len(req.RenterInputs) > 0 { // an input that does not exist (same value)
+			req.RenterInputs[0].ID[5] ^= 0x21
+		}
 		w = relay(server, &req, true, id)
 	} else {
 		var req proto4.RPCRefreshContractRequest
@@ -157,6 +160,9 @@ func (a *Adapter) renewProxy(rs *renewSession, ex types.V2FileContract, client, 
 		req.Prices = a.prices(act.Pf)
 		if act.Cf != "ok" {
 			req.ChallengeSignature = mutateChallenge(req.ChallengeSigHash)
+		}
+		if act.Rf == "poolbad" && len(req.RenterInputs) > 0 {
+			req.RenterInputs[0].ID[5] ^= 0x21
 		}
 		w = relay(server, &req, true, id)
 	}
@@ -199,6 +205,18 @@ func (a *Adapter) renewProxy(rs *renewSession, ex types.V2FileContract, client, 
 		second.RenterRenewalSignature = corruptSig(second.RenterRenewalSignature)
 	case "round2:other": // a valid renter signature, but over a different contract than the host built
 		second.RenterContractSignature = a.K.RenterKey.SignHash(a.E.CM.TipState().ContractSigHash(ex))
+	case "round2:badinput": // contract and renewal signatures are genuine; one renter INPUT signature is not
+		done := false
+		for i := range second.RenterSatisfiedPolicies {
+			if sp := &second.RenterSatisfiedPolicies[i]; len(sp.Signatures) > 0 {
+				sp.Signatures[0][9] ^= 0x10
+				done = true
+				break
+			}
+		}
+		if !done {
+			second.RenterSatisfiedPolicies = nil
+		}
 	case "round2:replay":
 		second.RenterRenewalSignature = ex.RenterSignature
 		second.RenterContractSignature = ex.RenterSignature
